@@ -4,6 +4,7 @@ package main
 // Monitor M1 only (pure classification), so arbitrary texts can be used.
 
 import (
+	"strconv"
 	"crypto/sha1"
 	"fmt"
 	"os"
@@ -338,7 +339,47 @@ func c01ValueCases() []c01Run {
 	return out
 }
 
-var c01ValueList = c01ValueCases()
+// ---- stores through paths whose keys are of every kind, on bases of every kind
+
+func c01StoreCases() []c01Run {
+	keys := []string{"true", "false", "null", "u", "[]", "{}", "[1]", "1.5", "-1", "0", "'k'", "''", "/re/", "fn", "$", "3000000", "'0'", "-0.5"}
+	forms := []string{
+		"fresh%d[K] = 1", "fresh%d.a[K] = 1", "fresh%d[K][K] = 1", "fresh%d.a.b[K].c = 1", "fresh%d[K].a[K] = 1", "fresh%d[0][K] = 1",
+		"x = true; x[K] = 1", "x = 5; x[K][K] = 1", "x = 's'; x[K] = 1", "x = null; x[K][K] = 1", "x = fn; x[K] = 1", "x = [1]; x[K][K] = 1", "x = {}; x[K][K].y = 1", "x = [[]]; x[0][K] = 1",
+		"fresh%d[K]++", "fresh%d.a[K] += 2", "fresh%d[K][K]--", "++fresh%d.a[K].b", "fresh%d.a[K] = fresh%d.a[K]", "y = fresh%d[K][K]; print y",
+		"$.g[K][K] = 1", "$[K].f[K] = 1", "$[K]++", "seen[$.f][$.g] = 1", "seen[$.t][$.n][$.f] += 1",
+	}
+	var out []c01Run
+	n := 0
+	for _, f := range forms {
+		for _, k := range keys {
+			n++
+			st := strings.ReplaceAll(strings.ReplaceAll(f, "%d", strconv.Itoa(n)), "K", k)
+			prog := "function fn(a) { return a } BEGIN { print 'b' } { " + st + "; print 'stored'; print json($) } END { print 'end' }"
+			out = append(out, c01Run{prog: prog, input: []byte(`{"f": true, "g": null, "t": false, "n": 1.5, "s": "str", "a": [1, 2], "o": {}}`), name: "store-path:" + f + ":" + k})
+		}
+	}
+	return out
+}
+
+// ---- tiny inputs: every single byte, and short prefixes of multi-byte sequences and of JSON tokens
+
+func c01TinyInputs() []c01Run {
+	var out []c01Run
+	add := func(b []byte) {
+		out = append(out, c01Run{prog: "BEGINFILE { print 'bf' } { print } END { print 'end' }", input: b, name: fmt.Sprintf("tiny-input:% x", b)})
+	}
+	for b := 0; b < 256; b++ {
+		add([]byte{byte(b)})
+	}
+	for _, s := range []string{"\xef\xbb", "\xef\xbb\xbf", "\xef\xbb\xbf1", "\xef\xbb\xbf[", "\xef\xbf", "\xfe\xff", "\xff\xfe", "\xff\xfe1\x00", "\xc3", "\xe2\x82", "\xf0\x9f\x98", "\xed\xa0\x80",
+		"1e", "-", "-0", "0.", "1e+", "tr", "nul", "fals", "\"\\", "\"\\u", "\"\\u00", "\"\\ud83d", "[1,", "{\"a\"", "{\"a\":", "[[", "}]", "//", "/*", "1 2", "1\x002", "\x00\x00", "\r", "\r\n", " ", "\t\n ", "01", "1.e1", "+1", ".5", "0x10", "NaN", "Infinity", "-Infinity", "1e400", "\"\xff\"", "'a'"} {
+		add([]byte(s))
+	}
+	return out
+}
+
+var c01ValueList = append(append(c01ValueCases(), c01StoreCases()...), c01TinyInputs()...)
 
 // ---- sampled
 
@@ -494,7 +535,7 @@ func c01Run_(c *Case) {
 func init() {
 	register(&Prop{
 		ID: "C01", Level: "exploration",
-		Rule:          "outcome classification only (no model): every run must end as ok / syntax / runtime / json; a recovered panic, a control-flow sentinel or any other error value, the death of the worker process, and for the binary a signal, a Go trace on stderr or a non-zero status without diagnostic are violations. Enumerated: {next, exit, break, continue, return, return v} x 16 placements (BEGIN, END, BEGINFILE, ENDFILE, pattern body, pattern expression via a match block, function called from each of the five rule kinds, match block in BEGIN / pattern rule / function, -r selector via a match block alone and after a plain selector) x {plain, while, for, for-in, nested for-in, nested if} x 4 inputs, all also through the binary; 28 nestable constructs nested 1000 / 8000 / as deep as 64 KiB allows, and 6 of them inside a self-recursive function (recursion x nesting); 22 cyclic / shared shapes (built twice) x 62 operations that walk a value (comparison, contains, sort, match, iteration, rendering, arithmetic, member chains, stores into itself) and 15 histories that shrink an array through one of two references and then walk it through the other, all also through the binary. Sampled: whole-grammar random programs in random layouts, token-level mutations, byte-level mutations of these and of the repository's fuzz corpus, raw bytes; hostile inputs (JSONL, truncated, stray closers, nesting to 20000, garbage, empty); generated / mutated / garbage selectors; EvalExpression on JSON-typed roots; fuzzing flag on and off; step budget 50000 (budget-exhausted runs are inconclusive). Non-trivial = at least 3 interpreter steps executed (hook) or a syntax error in a text of >= 10 bytes; distinct by hash of program+selectors+input.",
+		Rule:          "outcome classification only (no model): every run must end as ok / syntax / runtime / json; a recovered panic, a control-flow sentinel or any other error value, the death of the worker process, and for the binary a signal, a Go trace on stderr or a non-zero status without diagnostic are violations. Enumerated: {next, exit, break, continue, return, return v} x 16 placements (BEGIN, END, BEGINFILE, ENDFILE, pattern body, pattern expression via a match block, function called from each of the five rule kinds, match block in BEGIN / pattern rule / function, -r selector via a match block alone and after a plain selector) x {plain, while, for, for-in, nested for-in, nested if} x 4 inputs, all also through the binary; 28 nestable constructs nested 1000 / 8000 / as deep as 64 KiB allows, and 6 of them inside a self-recursive function (recursion x nesting); 22 cyclic / shared shapes (built twice) x 62 operations that walk a value (comparison, contains, sort, match, iteration, rendering, arithmetic, member chains, stores into itself) and 15 histories that shrink an array through one of two references and then walk it through the other; 25 store forms (plain, nested, through fresh names, through $, with ++ / += / --) x 18 keys of every kind (booleans, null, unset, containers, regex, function, fractions, negative, huge) on bases of every kind; every one-byte input and 50 short prefixes of byte-order marks, multi-byte sequences and JSON tokens; all also through the binary. Sampled: whole-grammar random programs in random layouts, token-level mutations, byte-level mutations of these and of the repository's fuzz corpus, raw bytes; hostile inputs (JSONL, truncated, stray closers, nesting to 20000, garbage, empty); generated / mutated / garbage selectors; EvalExpression on JSON-typed roots; fuzzing flag on and off; step budget 50000 (budget-exhausted runs are inconclusive). Non-trivial = at least 3 interpreter steps executed (hook) or a syntax error in a text of >= 10 bytes; distinct by hash of program+selectors+input.",
 		NumCases:      c01Cases,
 		Run:           c01Run_,
 		MinConclusive: func(tier string) int { return 20000 },
